@@ -1,145 +1,143 @@
 import MindsVerif.Lemmas.Route
 /-! Name-resolution semantics: cutting the integration qualifier preserves what every column
-reference denotes (C11, T11.1). -/
+reference denotes (C11, T11.1) — for the cut as it is (`names = []`) and for the alias-aware cut of
+fixes/C11_2.diff (`names` = aliases and CTE names of the query). -/
 namespace MindsVerif.Route
 
-def cutT (db : Name) (t : TRef) : TRef := { t with parts := cut db t.parts }
+def cutT (db : Name) (names : List Name) (t : TRef) : TRef := { t with parts := cut db names true t.parts }
 
-theorem inst_of_okTab (db : Name) (t : TRef) (h : okTab db t = true) :
-    ∃ i, instFed db t = some i ∧ instLocal db (cutT db t) = some i ∧ i.db = db ∧ exposed i ≠ db ∧
-      i.alias = t.alias := by
+theorem cut_tab (db : Name) (names : List Name) (parts : List Name) :
+    cut db names true parts = stripParts db parts false := by
+  simp [cut, stripPartsN, keepsLocal]
+
+theorem inst_of_okTab (db : Name) (names : List Name) (t : TRef) (h : okTab db t = true) :
+    ∃ i, instFed db t = some i ∧ instLocal db (cutT db names t) = some i ∧ i.db = db := by
   obtain ⟨parts, alias⟩ := t
-  simp only [okTab, Bool.and_eq_true] at h
-  obtain ⟨h1, h2⟩ := h
-  match parts, h1, h2 with
-  | [n], _, h2 =>
-    refine ⟨⟨db, n, alias⟩, by simp [instFed], by simp [instLocal, cutT, cut, stripParts, identLen], rfl, ?_, rfl⟩
-    cases alias <;> simpa [exposed] using h2
-  | [q, n], h1, h2 =>
-    simp only [decide_eq_true_eq] at h1
-    refine ⟨⟨db, n, alias⟩, by simp [instFed, h1], by simp [instLocal, cutT, cut, stripParts, identLen, h1], rfl, ?_, rfl⟩
-    cases alias <;> simpa [exposed] using h2
-  | [], h1, _ => simp at h1
-  | _ :: _ :: _ :: _, h1, _ => simp at h1
+  simp only [okTab] at h
+  match parts, h with
+  | [n], _ =>
+    exact ⟨⟨db, n, alias⟩, by simp [instFed], by simp [instLocal, cutT, cut_tab, stripParts, identLen], rfl⟩
+  | [q, n], h =>
+    simp only [decide_eq_true_eq] at h
+    exact ⟨⟨db, n, alias⟩, by simp [instFed, h], by simp [instLocal, cutT, cut_tab, stripParts, identLen, h], rfl⟩
+  | [], h => simp at h
+  | _ :: _ :: _ :: _, h => simp at h
 
-def instOk (db : Name) (tchain : List (List TRef)) (i : Inst) : Prop :=
-  i.db = db ∧ exposed i ≠ db ∧ ∃ sc ∈ tchain, ∃ t ∈ sc, t.alias = i.alias
+def chainOk (db : Name) (ichain : List (List Inst)) : Prop := ∀ sc ∈ ichain, ∀ i ∈ sc, i.db = db
 
-def chainOk (db : Name) (tchain : List (List TRef)) (ichain : List (List Inst)) : Prop :=
-  ∀ sc ∈ ichain, ∀ i ∈ sc, instOk db tchain i
-
-theorem instOk_weaken (db : Name) (tabs : List TRef) (tchain) (i : Inst) (h : instOk db tchain i) :
-    instOk db (tabs :: tchain) i := by
-  obtain ⟨h1, h2, sc, hsc, t, ht, ha⟩ := h
-  exact ⟨h1, h2, sc, by simp [hsc], t, ht, ha⟩
-
-theorem scope_of_okTabs (db : Name) :
+theorem scope_of_okTabs (db : Name) (names : List Name) :
     ∀ tabs : List TRef, tabs.all (okTab db) = true →
-      ∃ sc, optAll (instFed db) tabs = some sc ∧ optAll (instLocal db) (tabs.map (cutT db)) = some sc ∧
-        ∀ i ∈ sc, i.db = db ∧ exposed i ≠ db ∧ ∃ t ∈ tabs, t.alias = i.alias := by
+      ∃ sc, optAll (instFed db) tabs = some sc ∧ optAll (instLocal db) (tabs.map (cutT db names)) = some sc ∧
+        ∀ i ∈ sc, i.db = db := by
   intro tabs
   induction tabs with
   | nil => intro _; exact ⟨[], rfl, rfl, by simp⟩
   | cons t r ih =>
     intro h
     simp only [List.all_cons, Bool.and_eq_true] at h
-    obtain ⟨i, h1, h2, h3, h4, h5⟩ := inst_of_okTab db t h.1
+    obtain ⟨i, h1, h2, h3⟩ := inst_of_okTab db names t h.1
     obtain ⟨sc, g1, g2, g3⟩ := ih h.2
     refine ⟨i :: sc, by simp [optAll, h1, g1], by simp [optAll, h2, g2], ?_⟩
     intro j hj
     simp only [List.mem_cons] at hj
     rcases hj with rfl | hj
-    · exact ⟨h3, h4, t, by simp, h5.symm⟩
-    · obtain ⟨a, b, t', ht', e⟩ := g3 j hj
-      exact ⟨a, b, t', by simp [ht'], e⟩
+    · exact h3
+    · exact g3 j hj
 
-theorem cut_getLastD (db : Name) (r : List Name) : (cut db r).getLastD [] = r.getLastD [] := by
-  match r with
-  | [] => rfl
-  | [p] => simp [cut, stripParts, identLen]
-  | p :: q :: r =>
-    simp only [cut, stripParts]
-    split <;> simp
+theorem cut_getLastD (db : Name) (names : List Name) (b : Bool) (r : List Name) :
+    (cut db names b r).getLastD [] = r.getLastD [] := by
+  unfold cut stripPartsN
+  split
+  · rfl
+  · match r with
+    | [] => rfl
+    | [p] => simp [stripParts, identLen]
+    | p :: q :: r =>
+      simp only [stripParts]
+      split <;> simp
 
-theorem matchesCol_cut (db : Name) (sch : Schema) (tchain : List (List TRef)) (i : Inst) (r : List Name)
-    (hi : instOk db tchain i) (hr : okCol db tchain r = true) :
-    matchesCol false sch i (cut db r) = matchesCol true sch i r := by
-  obtain ⟨hdb, hexp, sc, hsc, t, ht, hal⟩ := hi
+theorem matchesCol_cut (db : Name) (names : List Name) (sch : Schema) (i : Inst) (r : List Name)
+    (hdb : i.db = db) (hr : okCol db names r = true) :
+    matchesCol false sch i (cut db names false r) = matchesCol true sch i r := by
   match r, hr with
   | [], _ => rfl
-  | [c], _ => simp [cut, stripParts, identLen, matchesCol]
+  | [c], _ => simp [cut, stripPartsN, keepsLocal, stripParts, identLen, matchesCol]
   | [q, c], hr =>
-    simp only [okCol, decide_eq_true_eq] at hr
-    simp [cut, stripParts, identLen, matchesCol, hr]
+    simp only [okCol, Bool.or_eq_true, decide_eq_true_eq] at hr
+    by_cases hn : names.contains db = true
+    · have hm : db ∈ names := by simpa using hn
+      simp [cut, stripPartsN, keepsLocal, identLen, hm, matchesCol]
+    · have hq : lower q ≠ db := by
+        rcases hr with h | h
+        · exact h
+        · exact absurd h hn
+      simp [cut, stripPartsN, keepsLocal, stripParts, identLen, matchesCol, hq]
   | [d, q, c], _ =>
     by_cases hd : lower d = db
-    · simp [cut, stripParts, identLen, hd, matchesCol, hdb]
+    · simp [cut, stripPartsN, keepsLocal, stripParts, identLen, hd, matchesCol, hdb]
     · have hd' : ¬ (lower d = i.db) := by rw [hdb]; exact hd
-      simp [cut, stripParts, identLen, hd, matchesCol, hd']
+      simp [cut, stripPartsN, keepsLocal, stripParts, identLen, hd, matchesCol, hd']
   | d :: a :: b :: c :: r, _ =>
     by_cases hd : lower d = db
-    · cases r <;> simp [cut, stripParts, identLen, hd, matchesCol]
-    · simp [cut, stripParts, identLen, hd, matchesCol]
+    · cases r <;> simp [cut, stripPartsN, keepsLocal, stripParts, identLen, hd, matchesCol]
+    · simp [cut, stripPartsN, keepsLocal, stripParts, identLen, hd, matchesCol]
 
-theorem matchIdx_cut (db : Name) (sch : Schema) (tchain : List (List TRef)) (r : List Name)
-    (hr : okCol db tchain r = true) :
-    ∀ (sc : List Inst) (k : Nat), (∀ i ∈ sc, instOk db tchain i) →
-      matchIdx false sch (cut db r) k sc = matchIdx true sch r k sc := by
+theorem matchIdx_cut (db : Name) (names : List Name) (sch : Schema) (r : List Name)
+    (hr : okCol db names r = true) :
+    ∀ (sc : List Inst) (k : Nat), (∀ i ∈ sc, i.db = db) →
+      matchIdx false sch (cut db names false r) k sc = matchIdx true sch r k sc := by
   intro sc
   induction sc with
   | nil => intros; rfl
   | cons i is ih =>
     intro k h
     simp only [matchIdx]
-    rw [matchesCol_cut db sch tchain i r (h i (by simp)) hr, ih (k + 1) (fun j hj => h j (by simp [hj]))]
+    rw [matchesCol_cut db names sch i r (h i (by simp)) hr, ih (k + 1) (fun j hj => h j (by simp [hj]))]
 
-theorem resolveCol_cut (db : Name) (sch : Schema) (tchain : List (List TRef)) (r : List Name)
-    (hr : okCol db tchain r = true) :
-    ∀ (ichain : List (List Inst)) (d : Nat), chainOk db tchain ichain →
-      resolveCol false sch (cut db r) d ichain = resolveCol true sch r d ichain := by
+theorem resolveCol_cut (db : Name) (names : List Name) (sch : Schema) (r : List Name)
+    (hr : okCol db names r = true) :
+    ∀ (ichain : List (List Inst)) (d : Nat), chainOk db ichain →
+      resolveCol false sch (cut db names false r) d ichain = resolveCol true sch r d ichain := by
   intro ichain
   induction ichain with
   | nil => intros; rfl
   | cons sc outer ih =>
     intro d h
     simp only [resolveCol]
-    rw [matchIdx_cut db sch tchain r hr sc 0 (h sc (by simp)), cut_getLastD,
+    rw [matchIdx_cut db names sch r hr sc 0 (h sc (by simp)), cut_getLastD,
       ih (d + 1) (fun s hs => h s (by simp [hs]))]
 
 mutual
-theorem resolveAll_strip (db : Name) (sch : Schema) :
-    ∀ (s : Sel) (tchain : List (List TRef)) (ichain : List (List Inst)), chainOk db tchain ichain →
-      okSel db tchain s = true →
-      resolveAll false db sch ichain (stripSel db s) = resolveAll true db sch ichain s
-  | .mk tabs cols subs, tchain, ichain, hch, hok => by
+theorem resolveAll_strip (db : Name) (names : List Name) (sch : Schema) :
+    ∀ (s : Sel) (ichain : List (List Inst)), chainOk db ichain → okSel db names s = true →
+      resolveAll false db sch ichain (stripSel db names s) = resolveAll true db sch ichain s
+  | .mk tabs cols subs, ichain, hch, hok => by
     simp only [okSel, Bool.and_eq_true] at hok
     obtain ⟨⟨ht, hc⟩, hs⟩ := hok
-    obtain ⟨sc, g1, g2, g3⟩ := scope_of_okTabs db tabs ht
-    have hch' : chainOk db (tabs :: tchain) (sc :: ichain) := by
+    obtain ⟨sc, g1, g2, g3⟩ := scope_of_okTabs db names tabs ht
+    have hch' : chainOk db (sc :: ichain) := by
       intro s' hs' i hi
       simp only [List.mem_cons] at hs'
       rcases hs' with rfl | hs'
-      · obtain ⟨a, b, t, ht', e⟩ := g3 i hi
-        exact ⟨a, b, tabs, by simp, t, ht', e⟩
-      · exact instOk_weaken db tabs tchain i (hch s' hs' i hi)
-    have g2' : optAll (instLocal db) (List.map (fun t => { t with parts := cut db t.parts }) tabs) = some sc := g2
+      · exact g3 i hi
+      · exact hch s' hs' i hi
+    have g2' : optAll (instLocal db) (List.map (fun t => { t with parts := cut db names true t.parts }) tabs) = some sc := g2
     simp only [stripSel, resolveAll, if_true, g1, g2', Bool.false_eq_true, if_false]
-    rw [resolveAlls_strip db sch subs (tabs :: tchain) (sc :: ichain) hch' hs]
+    rw [resolveAlls_strip db names sch subs (sc :: ichain) hch' hs]
     congr 1
     rw [List.map_map]
     apply List.map_congr_left
     intro r hr
     simp only [List.all_eq_true] at hc
-    exact resolveCol_cut db sch (tabs :: tchain) r (hc r hr) (sc :: ichain) 0 hch'
-theorem resolveAlls_strip (db : Name) (sch : Schema) :
-    ∀ (ss : Sels) (tchain : List (List TRef)) (ichain : List (List Inst)), chainOk db tchain ichain →
-      okSels db tchain ss = true →
-      resolveAlls false db sch ichain (stripSels db ss) = resolveAlls true db sch ichain ss
-  | .nil, _, _, _, _ => by simp [stripSels, resolveAlls]
-  | .cons s ss, tchain, ichain, hch, hok => by
+    exact resolveCol_cut db names sch r (hc r hr) (sc :: ichain) 0 hch'
+theorem resolveAlls_strip (db : Name) (names : List Name) (sch : Schema) :
+    ∀ (ss : Sels) (ichain : List (List Inst)), chainOk db ichain → okSels db names ss = true →
+      resolveAlls false db sch ichain (stripSels db names ss) = resolveAlls true db sch ichain ss
+  | .nil, _, _, _ => by simp [stripSels, resolveAlls]
+  | .cons s ss, ichain, hch, hok => by
     simp only [okSels, Bool.and_eq_true] at hok
     simp only [stripSels, resolveAlls]
-    rw [resolveAll_strip db sch s tchain ichain hch hok.1, resolveAlls_strip db sch ss tchain ichain hch hok.2]
+    rw [resolveAll_strip db names sch s ichain hch hok.1, resolveAlls_strip db names sch ss ichain hch hok.2]
 end
 
 end MindsVerif.Route
